@@ -7,7 +7,7 @@ import traceback
 
 import paths
 
-VERIF = "/verif"
+VERIF = paths.VERIF
 # a run against a changed copy (VERIF_REPO) leaves the evidence of the real tree alone
 EVIDENCE_DIR = os.path.join(VERIF, "evidence") if not paths.ALT else os.path.join(VERIF, "work", "alt_evidence")
 REPLAY_DIR = os.path.join(VERIF, "replays") if not paths.ALT else os.path.join(VERIF, "work", "alt_replays")
